@@ -150,7 +150,7 @@ impl CompileOut {
 static PANICS: Mutex<Vec<String>> = Mutex::new(Vec::new());
 
 pub fn install_panic_hook() {
-    std::panic::set_hook(Box::new(|info| {
+    std::panic::set_hook(Box::new(|info| crate::sched::no_yield(|| {
         let loc = info
             .location()
             .map(|l| format!("{}:{}", l.file(), l.line()))
@@ -167,10 +167,14 @@ pub fn install_panic_hook() {
             .lock()
             .unwrap_or_else(|e| e.into_inner())
             .push(format!("t{tid} {loc}: {msg}"));
-    }));
+    })));
 }
 
 fn take_panic() -> String {
+    crate::sched::no_yield(take_panic_inner)
+}
+
+fn take_panic_inner() -> String {
     let tid = crate::sched::current_tid();
     let mut g = PANICS.lock().unwrap_or_else(|e| e.into_inner());
     let prefix = format!("t{tid} ");
